@@ -949,4 +949,5 @@ func (e *Engine) addPEGObligations() {
 	pa := &pegAnalysis{e: e, g: g, stripped: map[int]string{}}
 	pa.fixpoints()
 	e.addPEGAtomicity(pa)
+	e.addPEGFlagObligations(pa)
 }
